@@ -2,7 +2,7 @@ import HavocVerif.Basic.Proto
 import HavocVerif.Model.Body
 /-
   Driver for C19.
-    equiv schema=<sch> cfg=<cfg> fault=<…> cut=<n> seed=<n> => dyn=<0|1> dynamic=<r1|r2> json=… merged=… native=… shuffled=…
+    equiv schema=<sch> cfg=<cfg> fault=<…> cut=<n> seed=<n> => dyn=<0|1> dynamic=<r1|r2> formatted=… json=… jsont=… merged=… native=… shuffled=…
   sch: {a:<name>:<type>:<r|o>,b:<type>:<L?*?>{…},…}    cfg: {a:<name>=<val>,b:<type>[<labelhex>]{…},…}
 -/
 namespace Havoc.DriverC19
@@ -73,12 +73,13 @@ def step (l : Line) : Verdict :=
   | "equiv" =>
     match (kv "schema" l.args).bind (fun s => parseSch s.toList), (kv "cfg" l.args).bind (fun s => parseCfg s.toList) with
     | some sch, some cfg =>
-      let forms := ["native", "shuffled", "json", "merged", "dynamic"].filterMap fun f =>
+      let forms := ["native", "shuffled", "json", "jsont", "formatted", "merged", "dynamic"].filterMap fun f =>
         (kv f l.impl).bind fun v => if v == "skip" then none else some (f, v)
       match forms.find? (fun (_, v) => v.startsWith "PANIC") with
       | some (f, v) => .specFail "C19.panic" s!"decoding the {f} form panicked: {v}"
       | none =>
         match forms.find? (fun (_, v) => v == "SYNTAX") with
+        | some ("formatted", _) => .specFail "C19.validity-flips" "the shuffled form parses, after the formatter it does not"
         | some (f, _) => .bad s!"the {f} form does not parse (writer bug)"
         | none =>
           -- the two decoders on every form
